@@ -10,7 +10,7 @@ import (
 // touch the subscriber counter of the events the process was subscribed to?
 
 func init() {
-	generators = append(generators, generator{name: "Event", run: genEvent, fallback: "namespace ErgoVerif.Gen.Event\ndef terminationUpdatesCounter : Bool := false\ndef publishDedupes : Bool := false\ndef remoteFramePerNode : Bool := false\nend ErgoVerif.Gen.Event\n"})
+	generators = append(generators, generator{name: "Event", run: genEvent, fallback: "namespace ErgoVerif.Gen.Event\ndef terminationUpdatesCounter : Bool := false\ndef publishDedupes : Bool := false\ndef remoteFramePerNode : Bool := false\ndef subscribeAddsBeforeSnapshot : Bool := false\nend ErgoVerif.Gen.Event\n"})
 }
 
 func genEvent() (string, error) {
@@ -55,9 +55,69 @@ func genEvent() (string, error) {
 	if err != nil {
 		return "", err
 	}
+	ab, err := subscribeAddsBeforeSnapshot()
+	if err != nil {
+		return "", err
+	}
 	return fmt.Sprintf("namespace ErgoVerif.Gen.Event\n/-- unregisterProcess decrements eventOwner.consumers for the subscriptions of the terminated process -/\ndef terminationUpdatesCounter : Bool := %s\n"+
 		"/-- RouteSendEvent skips a consumer it has already served in this fan-out (`if seen[pid] { continue }; seen[pid] = true` heading the loop over the consumers) -/\ndef publishDedupes : Bool := %s\n"+
-		"/-- RouteSendEvent collects the nodes of the remote consumers in a map (a set) and sends one frame per entry -/\ndef remoteFramePerNode : Bool := %s\nend ErgoVerif.Gen.Event\n", leanBool(res), leanBool(dd), leanBool(fd)), nil
+		"/-- RouteSendEvent collects the nodes of the remote consumers in a map (a set) and sends one frame per entry -/\ndef remoteFramePerNode : Bool := %s\n"+
+		"/-- RouteLinkEvent and RouteMonitorEvent (local event): the relation is inserted before the last-N buffer is read -/\ndef subscribeAddsBeforeSnapshot : Bool := %s\nend ErgoVerif.Gen.Event\n", leanBool(res), leanBool(dd), leanBool(fd), leanBool(ab)), nil
+}
+
+// subscribeAddsBeforeSnapshot: in the local branch of RouteLinkEvent / RouteMonitorEvent the call of
+// n.targetManager.AddLink / AddMonitor comes before the first read of event.last.
+func subscribeAddsBeforeSnapshot() (bool, error) {
+	f, err := parseFile("node/core.go")
+	if err != nil {
+		return false, err
+	}
+	all := true
+	for _, fn := range []string{"RouteLinkEvent", "RouteMonitorEvent"} {
+		fd := funcDecl(f, "node", fn)
+		if fd == nil {
+			return false, fmt.Errorf("node.%s not found", fn)
+		}
+		var local *ast.BlockStmt
+		ast.Inspect(fd.Body, func(n ast.Node) bool {
+			is, ok := n.(*ast.IfStmt)
+			if !ok || local != nil {
+				return local == nil
+			}
+			if be, ok := is.Cond.(*ast.BinaryExpr); ok {
+				x := selName(be.X) + "==" + selName(be.Y)
+				if x == "n.name==target.Node" || x == "target.Node==n.name" {
+					local = is.Body
+				}
+			}
+			return local == nil
+		})
+		if local == nil {
+			return false, fmt.Errorf("node.%s: local branch not found", fn)
+		}
+		var addPos, snapPos int
+		ast.Inspect(local, func(n ast.Node) bool {
+			c, ok := n.(*ast.CallExpr)
+			if !ok {
+				return true
+			}
+			nm := selName(c.Fun)
+			if (nm == "n.targetManager.AddLink" || nm == "n.targetManager.AddMonitor") && addPos == 0 {
+				addPos = int(c.Pos())
+			}
+			if strings.HasPrefix(nm, "event.last.") && snapPos == 0 {
+				snapPos = int(c.Pos())
+			}
+			return true
+		})
+		if addPos == 0 || snapPos == 0 {
+			return false, fmt.Errorf("node.%s: relation insert or read of event.last not found in the local branch", fn)
+		}
+		if !(addPos < snapPos) {
+			all = false
+		}
+	}
+	return all, nil
 }
 
 // remoteFramePerNode: in RouteSendEvent the loop that calls connection.SendEvent ranges over a variable that was
